@@ -538,7 +538,7 @@ fn gen_simple(r: &mut Rng, lat: bool) -> Vec<P2> {
                    1 => &[(0.0, 0.0), (5.0, 0.0), (5.0, 4.0), (4.0, 4.0), (4.0, 1.0), (1.0, 1.0), (1.0, 4.0), (0.0, 4.0)],
                    _ => &[(2.0, 0.0), (3.0, 0.0), (3.0, 3.0), (5.0, 3.0), (5.0, 4.0), (0.0, 4.0), (0.0, 3.0), (2.0, 3.0)] };
                let q: Vec<P2> = base.iter().map(|q| P2::new(q.0 * k, q.1 * k)).collect(); let t = r.below(4); quarter(&q, t) }
-        _ => { let (a, b) = (pt(r, lat), pt(r, lat)); let c = pt(r, lat); make_ccw(vec![a, b, c]) }
+        _ => { let (a, b) = (pt(r, lat), pt(r, lat)); let c = pt(r, lat); make_ccw(vec![a, b, c]) }   // may be degenerate: is_simple() decides the protocol name
     };
     if p.len() < 3 { return vec![P2::new(0.0, 0.0), P2::new(1.0, 0.0), P2::new(0.0, 1.0)]; }
     p
@@ -552,6 +552,31 @@ fn vob_exact(p1: &[P2], p2: &[P2]) -> Option<bool> {
     let on = |p: &[(i128, i128)], q: &[(i128, i128)]| p.iter().any(|v| (0..q.len()).any(|i| { let (s, t) = (q[i], q[(i + 1) % q.len()]);
         (t.0 - s.0) * (v.1 - s.1) - (t.1 - s.1) * (v.0 - s.0) == 0 && s.0.min(t.0) <= v.0 && v.0 <= s.0.max(t.0) && s.1.min(t.1) <= v.1 && v.1 <= s.1.max(t.1) }));
     Some(on(&a, &b) || on(&b, &a))
+}
+/// simplicity test in f64 (exact on lattice coordinates, where every cross product is exact): no zero-length edge, adjacent
+/// edges do not fold back, non-adjacent edges have no common point
+fn is_simple(p: &[P2]) -> bool {
+    let n = p.len();
+    if n < 3 { return false; }
+    let cr = |a: &P2, b: &P2, c: &P2| (b.x - a.x) * (c.y - a.y) - (b.y - a.y) * (c.x - a.x);
+    let on = |a: &P2, b: &P2, c: &P2| cr(a, b, c) == 0.0 && a.x.min(b.x) <= c.x && c.x <= a.x.max(b.x) && a.y.min(b.y) <= c.y && c.y <= a.y.max(b.y);
+    let meet = |a: &P2, b: &P2, c: &P2, d: &P2| {
+        let (d1, d2, d3, d4) = (cr(a, b, c), cr(a, b, d), cr(c, d, a), cr(c, d, b));
+        (((d1 > 0.0 && d2 < 0.0) || (d1 < 0.0 && d2 > 0.0)) && ((d3 > 0.0 && d4 < 0.0) || (d3 < 0.0 && d4 > 0.0)))
+            || on(a, b, c) || on(a, b, d) || on(c, d, a) || on(c, d, b) };
+    for i in 0..n {
+        let (a, b) = (&p[i], &p[(i + 1) % n]);
+        if a.x == b.x && a.y == b.y { return false; }
+        for j in (i + 1)..n {
+            let (c, d) = (&p[j], &p[(j + 1) % n]);
+            if j == i + 1 || (i == 0 && j == n - 1) {
+                // adjacent: share one vertex; must not be collinear and pointing back
+                let (u, v, w) = if j == i + 1 { (a, b, d) } else { (c, d, b) };
+                if cr(u, v, w) == 0.0 && (v.x - u.x) * (w.x - v.x) + (v.y - u.y) * (w.y - v.y) < 0.0 { return false; }
+            } else if meet(a, b, c, d) { return false; }
+        }
+    }
+    true
 }
 /// a pair of simple counter-clockwise polygons in a chosen relation; the flag says "touching by construction"
 fn gen_nc_pair(r: &mut Rng, lat: bool) -> (Vec<P2>, Vec<P2>, bool) {
@@ -618,7 +643,8 @@ fn rot_start(r: &mut Rng, mut p: Vec<P2>) -> Vec<P2> { if !p.is_empty() { let k 
 /// the non-convex cases of one generator iteration
 fn gen_nc(r: &mut Rng, lat: bool, v: &mut Vec<(String, String)>, all_rotations: bool) {
     let (p, q, touching) = gen_nc_pair(r, lat);
-    let touching = touching || vob_exact(&p, &q).unwrap_or(false);
+    // the compared names are reserved for simple polygons in general position (where the output is a function of the input)
+    let touching = touching || vob_exact(&p, &q).unwrap_or(false) || !is_simple(&p) || !is_simple(&q);
     let (n_pts, n_loc) = if touching { ("polygons_touching_points", "polygons_touching") } else { ("polygons_intersection_points", "polygons_intersection") };
     let (p1, q1) = (rot_start(r, p.clone()), rot_start(r, q.clone()));
     v.push((n_pts.into(), format!("{} {}", hpoly(&p1), hpoly(&q1))));
